@@ -1052,11 +1052,14 @@ pub extern "C" fn send_time_limit(fd: c_int) -> u64 {
             ) == -1
             {
                 let error = std::io::Error::last_os_error();
-                if Some(libc::ENOTSOCK) == error.raw_os_error() {
-                    // not a socket
-                    return u64::MAX;
+                if Some(libc::ENOTSOCK) != error.raw_os_error() {
+                    // e.g. a bad descriptor: no limit is known, the call that
+                    // follows reports the error itself (a panic here would
+                    // abort the process, this is an `extern "C"` function)
+                    crate::error!("getsockopt of fd {fd} failed: {error}");
                 }
-                panic!("getsockopt failed: {error}");
+                // not a socket, or no usable descriptor at all
+                return u64::MAX;
             }
             let time_limit = get_time_limit(&tv);
             _ = SEND_TIME_LIMIT.insert(fd, time_limit);
@@ -1081,11 +1084,14 @@ pub extern "C" fn recv_time_limit(fd: c_int) -> u64 {
             ) == -1
             {
                 let error = std::io::Error::last_os_error();
-                if Some(libc::ENOTSOCK) == error.raw_os_error() {
-                    // not a socket
-                    return u64::MAX;
+                if Some(libc::ENOTSOCK) != error.raw_os_error() {
+                    // e.g. a bad descriptor: no limit is known, the call that
+                    // follows reports the error itself (a panic here would
+                    // abort the process, this is an `extern "C"` function)
+                    crate::error!("getsockopt of fd {fd} failed: {error}");
                 }
-                panic!("getsockopt failed: {error}");
+                // not a socket, or no usable descriptor at all
+                return u64::MAX;
             }
             let time_limit = get_time_limit(&tv);
             _ = RECV_TIME_LIMIT.insert(fd, time_limit);
